@@ -140,6 +140,12 @@ SOLVE_COMPS = [
     ("ProxNewton", "Logistic", "WeightedL1", None), ("GroupBCD", "QuadraticGroup", "WeightedGroupL2", None),
     ("GroupBCD", "QuadraticGroup", "WeightedL1GroupL2", None), ("MultiTaskBCD", "QuadraticMultiTask", "L2_1", None),
     ("FISTA", "Quadratic", "WeightedL1", None), ("GramCD", "None", "WeightedL1", None), ("LBFGS", "Logistic", "L2", None),
+    # solves that stop on their BUDGET in the middle of an extrapolation cycle (period 7 for AndersonAcceleration(K=5),
+    # 6 for MultiTaskBCD): whatever the accelerator, the momentum or the working set remembers must not reach the
+    # next solve of the same object
+    ("GramCD", "None", "WeightedL1", "budget"), ("AndersonCD", "Quadratic", "WeightedL1", "budget"),
+    ("MultiTaskBCD", "QuadraticMultiTask", "L2_1", "budget"), ("FISTA", "Quadratic", "WeightedL1", "budget"),
+    ("GroupBCD", "QuadraticGroup", "WeightedGroupL2", "budget"), ("ProxNewton", "Logistic", "WeightedL1", "budget"),
 ]
 
 
@@ -209,12 +215,20 @@ def run_solve_purity(comp, storage, seed, tid):
     Xw0 = (X @ w0[:p] + (w0[-1] if fi else 0.0))
     if s == "MultiTaskBCD":
         Xw0 = np.asfortranarray(Xw0)
-    f = rel.Facts(tid, dict(solver=s, datafit=d, penalty=pk, storage=storage, seed=seed))
+    f = rel.Facts(tid, dict(solver=s, datafit=d, penalty=pk, storage=storage, seed=seed, special=special))
 
     def make():
         kw = dict(tol=1e-10)
         if fi:
             kw["fit_intercept"] = True
+        if special == "budget":
+            if s == "GramCD":
+                return skl.solver(s, max_iter=12, use_acc=True, **kw), None
+            if s == "FISTA":
+                return skl.solver(s, max_iter=12, **kw), None
+            if s == "ProxNewton":
+                return skl.solver(s, max_iter=3, **kw), None
+            return skl.solver(s, max_iter=2, max_epochs=10, p0=4, **kw), None
         if s == "PDCD_WS":
             dual = rng2.uniform(-0.2, 0.2, n)
             return skl.solver(s, max_iter=30, dual_init=dual, **kw), dual
@@ -431,11 +445,13 @@ def solve_purity_binding(ck, tier, seed):
         for st in ("dense", "csc", "csc_unsorted"):
             if st != "dense" and (comp[0] in ("PDCD_WS", "GroupProxNewton") or comp[1] == "Pinball"):
                 continue
+            if st != "dense" and comp[3] == "budget":
+                continue        # sparse Lipschitz constants start from a random vector: unconverged iterates differ
             if st == "csc_unsorted" and comp[0] not in ("AndersonCD", "ProxNewton", "FISTA", "GroupBCD"):
                 continue
             tid += 1
             items.append((comp, st, seed, tid))
-    res, errs = pool.map_grouped("harness.checks.purity", "run_solve_purity", items, key=lambda it: it[0][:3], chunk=4)
+    res, errs = pool.map_grouped("harness.checks.purity", "run_solve_purity", items, key=lambda it: it[0], chunk=4)
     for it, msg, tb in errs:
         ck.machinery(f"solve purity driver failed on {it}: {msg}\n{tb}")
     if errs:
@@ -449,17 +465,17 @@ def solve_purity_binding(ck, tier, seed):
     for t in res:
         names = {c for c, _ in v.bad(t["id"])}
         meta = t["meta"]
-        ck.count("solve:" + json.dumps({k: meta[k] for k in ("solver", "datafit", "penalty", "storage")}, sort_keys=True),
+        ck.count("solve:" + json.dumps({k: meta[k] for k in ("solver", "datafit", "penalty", "storage", "special")}, sort_keys=True),
                  meta.get("exc") is None)
         ck.cov["traces_validated_against_impl"] += 1
         for e in t["events"]:
             if e["when"]:
                 ck.clause(e["c"], e["c"] not in names)
         for c in sorted(names):
-            ck.violation(c, dict({k: meta.get(k) for k in ("solver", "datafit", "penalty", "storage", "touched", "exc")},
+            ck.violation(c, dict({k: meta.get(k) for k in ("solver", "datafit", "penalty", "storage", "special", "touched", "exc")},
                                  clause=c, level="solve"),
                          dict(kind="solve_purity", replay_module="harness.checks.purity", property="C18", clause=c,
-                              comp=[meta["solver"], meta["datafit"], meta["penalty"]], storage=meta["storage"],
+                              comp=[meta["solver"], meta["datafit"], meta["penalty"], meta.get("special")], storage=meta["storage"],
                               seed=meta["seed"]))
     ck.cov["binding"].append(dict(check="solver-level purity: same solver object solves twice, all user arrays "
                                         "byte-compared, second result against a fresh solver", runs=len(res)))
@@ -480,10 +496,10 @@ def solve_purity_binding(ck, tier, seed):
             if not ok:
                 meta = by_id[ot["id"]]["meta"]
                 ck.violation("solver_object_trace",
-                             dict({k: meta.get(k) for k in ("solver", "datafit", "penalty", "storage")},
+                             dict({k: meta.get(k) for k in ("solver", "datafit", "penalty", "storage", "special")},
                                   clause="solver_object_trace", rejected_at_line=reached, event=ot["events"][reached - 1]),
                              dict(kind="solve_purity", replay_module="harness.checks.purity", property="C18",
-                                  clause="solver_object_trace", comp=[meta["solver"], meta["datafit"], meta["penalty"]],
+                                  clause="solver_object_trace", comp=[meta["solver"], meta["datafit"], meta["penalty"], meta.get("special")],
                                   storage=meta["storage"], seed=meta["seed"]))
         ck.cov["binding"].append(dict(check="recorded solve / refill / solve sequences accepted by SolverObjectTrace.tla "
                                             "(TLC reuses the actions of SolverObject.tla)", traces=len(otraces)))
@@ -629,7 +645,7 @@ SENTINELS = [
 
 
 def replay_solve(rp):
-    comp = next(c for c in SOLVE_COMPS if list(c[:3]) == list(rp["comp"]))
+    comp = next(c for c in SOLVE_COMPS if list(c[:len(rp["comp"])]) == list(rp["comp"]))
     t = run_solve_purity(comp, rp["storage"], rp["seed"], 1)
     bad = {c for c, _ in rel.judge([t]).bad(1)}
     ot = t.get("object_trace")
